@@ -6,7 +6,7 @@
 //!
 //! Handles h0, h1 start on two maps X and Y of clearly different file length
 //! (values increase with the keys, so
-//! that get_key is defined). Alphabet (32 operations):
+//! that get_key is defined). Alphabet (34 operations):
 //!   Get(h, p)      get + contains_key of probe p in {"", a, ab, ba}
 //!   Open(h, b)     open the stream slot of h (replacing an open one) with
 //!                  bounds b in {none, ge(a).le(b), gt(a), lt(b)} or as
@@ -22,7 +22,7 @@
 //! and such sequences are not enumerated.
 //!
 //! A wrong answer is attributed to the property of the operation that gave it:
-//! Get -> C02, Open/Next -> C03 (C04 for the search), Verify -> C08, GetKey -> C16, any panic -> also C20, a failing open / map_data / clone_from -> C10; each of those checks
+//! Get -> C02, Open/Next -> C03 (C04 for the search), Verify -> C08, GetKey -> C16, len/is_empty -> C01, any panic -> also C20, a failing open / map_data / clone_from -> C10; each of those checks
 //! runs the exploration and reports only its own class.
 
 use std::sync::OnceLock;
@@ -46,6 +46,8 @@ pub enum Op {
     CloneFrom(u8),
     Verify(u8),
     GetKey(u8, u8),
+    /// harmless questions: len, is_empty, size, fst_type, as_bytes, root, a clone that is dropped
+    Ask(u8),
 }
 
 #[derive(Clone, Copy, Debug, PartialEq, Eq)]
@@ -54,6 +56,8 @@ pub enum Class {
     Stream,
     Verify,
     GetKey,
+    /// len() / is_empty() / size() / as_bytes() (C01: len and is_empty report the number of keys)
+    Meta,
     /// next() of a stream opened by search(..) (C04)
     Search,
     /// every class, but only panics (C20: whatever opens answers without panicking)
@@ -82,6 +86,7 @@ pub fn alphabet() -> Vec<Op> {
         a.push(Op::Verify(h));
         a.push(Op::GetKey(h, 2));
         a.push(Op::GetKey(h, 3));
+        a.push(Op::Ask(h));
     }
     a
 }
@@ -206,6 +211,16 @@ pub fn run_seq(seq: &[Op]) -> Result<u64, (Class, String)> {
                             return Err((Class::GetKey, format!("{}: get_key({}) = {:?}, expected {:?}", at(), v, got.map(|k| key_str(&k)), want.map(|k| key_str(&k)))));
                         }
                     }
+                    Op::Ask(hh) => {
+                        let hu = hh as usize;
+                        let f = &h[hu];
+                        let c = f.clone();
+                        let (want_len, want_size) = (cs[content[hu]].0.len(), cs[content[hu]].1.len());
+                        if f.len() != want_len || f.is_empty() != (want_len == 0) || f.size() != want_size || f.as_bytes().len() != want_size || f.fst_type() != 0 || c.len() != want_len || f.root().is_final() != (cs[content[hu]].0.iter().any(|kv| kv.0.is_empty())) {
+                            return Err((Class::Meta, format!("{}: len() = {}, is_empty() = {}, size() = {}, fst_type() = {}; the map has {} keys in {} bytes", at(), f.len(), f.is_empty(), f.size(), f.fst_type(), want_len, want_size)));
+                        }
+                        drop(c);
+                    }
                     Op::MapData(_) | Op::CloneFrom(_) => unreachable!(),
                 }
             }
@@ -245,6 +260,7 @@ fn class_of(op: &Op) -> Class {
         Op::Open(..) | Op::Next(_) | Op::Drop(_) => Class::Stream,
         Op::Verify(_) => Class::Verify,
         Op::GetKey(..) => Class::GetKey,
+        Op::Ask(_) => Class::Meta,
         Op::MapData(_) | Op::CloneFrom(_) => Class::Reopen,
     }
 }
@@ -305,6 +321,7 @@ pub fn ops_json(seq: &[Op]) -> Value {
                 Op::CloneFrom(h) => json!(["clone_from", h, 0]),
                 Op::Verify(h) => json!(["verify", h, 0]),
                 Op::GetKey(h, v) => json!(["get_key", h, v]),
+                Op::Ask(h) => json!(["ask", h, 0]),
             })
             .collect(),
     )
@@ -324,6 +341,7 @@ pub fn ops_from(v: &Value) -> Vec<Op> {
                 "map_data" => Op::MapData(h),
                 "clone_from" => Op::CloneFrom(h),
                 "verify" => Op::Verify(h),
+                "ask" => Op::Ask(h),
                 _ => Op::GetKey(h, x),
             }
         })
@@ -341,7 +359,7 @@ pub fn replay(case: &Value) -> Option<Result<String, String>> {
     Some(guarded(&seq).map(|n| format!("{} reader operations agree with the model", n)).map_err(|e| e.1))
 }
 
-pub const RULE: &str = " reader operation sequences: every sequence of at most D calls (quick D=4, thorough D=5) over a 32-operation alphabet on two reader handles (get/contains_key of 4 probes, open one of 4 bounded streams or a bounded Subsequence search, next, drop, map_data to the other map's bytes, clone_from the other handle, verify, get_key of 2 values), every answer compared with a reference model; a wrong answer is reported by the check of the operation's own property.";
+pub const RULE: &str = " reader operation sequences: every sequence of at most D calls (quick D=4, thorough D=5) over a 34-operation alphabet on two reader handles (get/contains_key of 4 probes, open one of 4 bounded streams or a bounded Subsequence search, next, drop, map_data to the other map's bytes, clone_from the other handle, verify, get_key of 2 values, the harmless questions len/is_empty/size/fst_type/as_bytes/root and a clone that is dropped), every answer compared with a reference model; a wrong answer is reported by the check of the operation's own property.";
 
 /// Adds the exploration to a plan; only failures of class `mine` are reported.
 pub fn add_units(p: &mut Plan, mine: Class, depth: usize) {
